@@ -1,13 +1,16 @@
 (* C09/Run.v -- entry point of the correspondence check. *)
 From Coq Require Import ZArith List Bool.
-From AK Require Export Common.Sx Common.Err C09.Model C09.Term.
+From AK Require Export Common.Sx Common.Err C09.Model C09.Term C09.Seq.
 Import ListNotations.
 Open Scope Z_scope.
 
 Inductive case :=
 | Fmt (a : fmtargs) (text : list Z)                    (* ColorFmt(args)(text), ColorBytes(args)(text.encode()) *)
 | Text (items : list (option fmtargs * list Z))        (* CHText( *parts ); None = a plain str part *)
-| Strip (s : list Z).                                  (* CHText.strip_colors(s) on an arbitrary string *)
+| Strip (s : list Z)                                   (* CHText.strip_colors(s) on an arbitrary string *)
+| SeqOps (fmts : list fmtargs)                         (* a pool of ColorFmt / ColorBytes objects, created once, *)
+         (pcs : list (option nat * list Z))            (* pieces fmt_k(text) / plain str, created once, *)
+         (n : nat) (ops : list op).                    (* n texts, and the operations on them (Seq.v) *)
 
 Definition sx_colour (c : colour) : sx :=
   match c with Default => SL [SZ 0] | Named n => SL [SZ 1; SZ n] | Idx n => SL [SZ 2; SZ n] end.
@@ -51,6 +54,10 @@ Fixpoint build (items : list (option fmtargs * list Z)) : res (list chunk) :=
       end
   end.
 
+(* piece (Some k, text) is formatter k of the pool applied to text *)
+Definition resolve (fmts : list fmtargs) (pc : option nat * list Z) : option fmtargs * list Z :=
+  (option_map (fun k => nth k fmts no_args) (fst pc), snd pc).
+
 Definition run (c : case) : sx :=
   match c with
   | Fmt a text =>
@@ -65,4 +72,10 @@ Definition run (c : case) : sx :=
                             sx_str (strip s); sx_term (term s)])
              (build items)
   | Strip s => SL [sx_str (strip s); sx_term (term s)]
+  | SeqOps fmts pcs n ops =>
+      match first_err fmts with
+      | Some e => sx_res (fun x : sx => x) (Err e)
+      | None => sx_res (fun pieces => SL (exec fmts pieces ops (repeat [] n)))
+                       (build (map (resolve fmts) pcs))
+      end
   end.
